@@ -437,3 +437,58 @@ Proof. inner_test (bs (px_text ++ "if not keep { } }")) 0. eexists. apply R. vm_
 Example ex_string_after_not :
   parse gen_tables (bs (px_text ++ "if not ""x"" { } }")) = Reject EExpected 53 3.
 Proof. inner_test (bs (px_text ++ "if not ""x"" { } }")) 0. exact R. Qed.
+
+(* 17. later positions of a test list: a missing comma, an unknown name after a comma, a comma before ')' *)
+Ltac later_test text ncomma :=
+  let toks := eval vm_compute in (fst (lex text)) in
+  let p := eval vm_compute in (firstn 10 toks) in
+  let r := eval vm_compute in (skipn 10 toks) in
+  match r with
+  | ?tn :: ?tl :: ?lp :: ?t1 :: ?r2 =>
+      let cm := eval vm_compute in (firstn ncomma r2) in
+      let r3 := eval vm_compute in (skipn ncomma r2) in
+      match r3 with
+      | ?t :: ?rest =>
+          let gd := eval vm_compute in (get_command_instance gen_tables [bs "fileinto"] (t_val tn)) in
+          let gl := eval vm_compute in (get_command_instance gen_tables [bs "fileinto"] (t_val tl)) in
+          match gd with
+          | inl ?d =>
+              match gl with
+              | inl ?dl =>
+                  let aa := eval vm_compute in (hd (mkArg [] [] false None None None None) (d_args d)) in
+                  let al := eval vm_compute in (hd (mkArg [] [] false None None None None) (d_args dl)) in
+                  assert (W : exists n, wf_test gen_tables [bs "fileinto"] (GSimple (bs "true") []) n) by (eexists; simple_t);
+                  destruct W as (n & W);
+                  pose proof (test_list_later_rejected gen_tables gen_twf text p tn tl lp [t1] cm t rest [bs "fileinto"] None 1 d aa dl al
+                                [GSimple (bs "true") []] [n]
+                                px_wf ltac:(vm_compute; reflexivity) eq_refl ltac:(vm_compute; reflexivity) eq_refl eq_refl eq_refl eq_refl
+                                eq_refl ltac:(vm_compute; reflexivity) eq_refl eq_refl eq_refl eq_refl eq_refl
+                                ltac:(discriminate) (Forall2_cons _ _ W (Forall2_nil _)) ltac:(vm_compute; reflexivity)
+                                ltac:(first [left; reflexivity|right; eexists; split; reflexivity])
+                                eq_refl) as R;
+                  cbv iota in R
+              end
+          end
+      end
+  end.
+
+Example ex_missing_comma_in_test_list :
+  parse gen_tables (bs (px_text ++ "if anyof (true true) { } }")) = Reject EExpected 61 4.
+Proof. later_test (bs (px_text ++ "if anyof (true true) { } }")) 0. apply R. reflexivity. Qed.
+
+Example ex_unknown_after_comma :
+  parse gen_tables (bs (px_text ++ "if anyof (true, foo) { } }")) = Reject (EUnknownCommand (bs "foo")) 62 3.
+Proof.
+  later_test (bs (px_text ++ "if anyof (true, foo) { } }")) 1.
+  revert R. match goal with |- match ?k with _ => _ end -> _ => let v := eval vm_compute in k in change k with v end. cbv iota.
+  match goal with |- match ?c with _ => _ end -> _ => let v := eval vm_compute in c in change c with v end. cbv iota.
+  intro R. exact R.
+Qed.
+
+Example ex_comma_before_paren :
+  parse gen_tables (bs (px_text ++ "if anyof (true,) { } }")) = Reject EExpected 61 1.
+Proof.
+  later_test (bs (px_text ++ "if anyof (true,) { } }")) 1.
+  revert R. match goal with |- match ?k with _ => _ end -> _ => let v := eval vm_compute in k in change k with v end. cbv iota.
+  intro R. exact R.
+Qed.
